@@ -538,19 +538,21 @@ def oracles_seqs(line, real_out):
     # C06: scenarios built so that the k-th transmission is answered correctly and in time
     if sc.get('expect'):
         k, ans = sc['expect']
-        got = (outs[0], len(per_req[0]))
+        got = (outs[-1], len(per_req[-1]))        # the scenario's last request; the ones before it are history
         recs.append({'prop': 'C06', 'ok': got == (ans, k), 'expected': f'{ans} after exactly {k} transmissions',
                      'observed': f'{got[0][:200]} after {got[1]}', 'what': 'a correct answer to the k-th transmission is returned after exactly k sends'})
     return recs, []
 
 
-def benign(rng, awaited):
-    """traffic that is not an answer-class frame: NMEA, other UBX, corrupted frames, filler"""
+def benign(rng, awaited, others=()):
+    """traffic that is not an answer-class frame: NMEA, other UBX (also of class/ids polled EARLIER on this server),
+    corrupted frames, filler"""
     k = rng.random()
     if k < 0.25:
         return b'$GPGGA,1,2*33\r\n'
     if k < 0.5:
-        return frame(*rng.choice([(1, 7), (0x0d, 1), (2, 0x15)]), rand_payload(rng, rng.choice([0, 4, 12])))
+        pool = [(1, 7), (0x0d, 1), (2, 0x15)] + [c for c in others if c not in awaited] * 3
+        return frame(*rng.choice(pool), rand_payload(rng, rng.choice([6, 8, 12]) if others else rng.choice([0, 4, 12])))
     if k < 0.75:
         c, i = rng.choice(awaited)
         f = bytearray(frame(c, i, rand_payload(rng, rng.choice([2, 6, 8]))))
@@ -591,8 +593,17 @@ def gen_c06(rng):
             tl = [(rng.randrange(1, max(2, dticks // 2)), (frame(1, 7, b'abcd') + b'$GPGGA,1*00\r\n').hex())]
         timelines.append(tl)
     tx.append(True)
+    # history: configuration polls answered at once on the same server, before the request the statement is about
+    history, others = [], []
+    if rng.random() < 0.4:
+        for hc in rng.sample([(6, 8), (6, 0x3e), (6, 0x8b), (6, 0x24)], rng.choice([1, 2])):
+            if hc == (cls_, id_):
+                continue
+            others.append(hc)
+            history.append({'kind': 'poll', 'cid': list(hc), 'payload': '', 'resp': '0', 'tx': [True],
+                            'timelines': [[(2, (frame(hc[0], hc[1], rand_payload(rng, 6)) + frame(5, 1, list(hc))).hex())]]})
     # the answer
-    pre = b''.join(benign(rng, awaited) for _ in range(rng.choice([0, 0, 1, 2, 3])))
+    pre = b''.join(benign(rng, awaited, others) for _ in range(rng.choice([0, 0, 1, 2, 3] if not others else [1, 2, 3])))
     if kind == 'set':
         if rng.random() < 0.75:
             ans, tag, apl = frame(5, 1, [cls_, id_]), 'UbxAckAck', bytes([cls_, id_])
@@ -633,8 +644,8 @@ def gen_c06(rng):
     timelines.append(tl)
     expect = [K, f'{acid[0]}/{acid[1]}:{tag}:{apl.hex()}']
     return {'retries': retries, 'delay': delay, 'chunk': chunk, 'timeout': timeout,
-            'reqs': [{'kind': kind, 'cid': [cls_, id_], 'payload': rand_payload(rng, rng.choice([0, 1, 6])).hex(), 'resp': str(minlen),
-                      'tx': tx, 'timelines': timelines}], 'expect': expect}
+            'reqs': history + [{'kind': kind, 'cid': [cls_, id_], 'payload': rand_payload(rng, rng.choice([0, 1, 6])).hex(), 'resp': str(minlen),
+                                'tx': tx, 'timelines': timelines}], 'expect': expect}
 
 
 def gen_sequence(rng):
@@ -645,6 +656,7 @@ def gen_sequence(rng):
     dticks = max(2, delay * 1024 // 1000)
     reqs = []
     prev = None
+    earlier = []
     for _ in range(nreq):
         kind = rng.choice(['set', 'set', 'mga', 'poll', 'poll', 'faf'])
         cls_, id_ = (0x13, 0x40) if kind == 'mga' else rng.choice(REQ_CIDS[:4])
@@ -657,14 +669,26 @@ def gen_sequence(rng):
             tl = []
             for _ in range(rng.choice([0, 1, 1, 1, 2])):
                 off = rng.choice([1, 5, dticks // 4, dticks // 2, dticks - 1, dticks + 5, 2 * dticks + 50, 2500])
-                data = b''.join(answer_frames(rng, kind if kind != 'faf' else 'set', cls_, id_, minlen) if rng.random() < 0.8 else noise(rng)
-                                for _ in range(rng.choice([1, 1, 2, 3])))
+                pieces = []
+                for _ in range(rng.choice([1, 1, 2, 3])):
+                    u = rng.random()
+                    if u < 0.15 and earlier:
+                        # a late or duplicate answer to an EARLIER request of this sequence
+                        ec, ei, em = rng.choice(earlier)
+                        pieces.append(frame(ec, ei, rand_payload(rng, em + rng.choice([0, 2]))) if rng.random() < 0.7 else frame(5, 1, [ec, ei]))
+                    elif u < 0.82:
+                        pieces.append(answer_frames(rng, kind if kind != 'faf' else 'set', cls_, id_, minlen))
+                    else:
+                        pieces.append(noise(rng))
+                data = b''.join(pieces)
                 if rng.random() < 0.12 and len(data) > 1:
                     data = data[:rng.randrange(1, len(data))]       # truncated frame at the end
                 tl.append((max(1, off), data.hex()))
             timelines.append(tl)
         reqs.append({'kind': kind, 'cid': [cls_, id_], 'payload': rand_payload(rng, rng.choice([0, 1, 6])).hex(), 'resp': str(minlen),
                      'tx': [rng.random() < 0.88 for _ in range(retries + 1)], 'timelines': timelines})
+        if kind == 'poll':
+            earlier.append((cls_, id_, minlen))
     return {'retries': retries, 'delay': delay, 'chunk': chunk, 'timeout': timeout, 'reqs': reqs}
 
 
